@@ -166,7 +166,7 @@ func (g *gen) drawPlan(name, typ string) clientPlan {
 		ok = !g.excludedHeights(typ, p.heights())
 	}
 	if !ok {
-		p = place(t, typ, clienttypes.NewHeight(uint64(rapid.IntRange(0, 3).Draw(t, "safeRev")), 0xff00+uint64(rapid.IntRange(1, 1000).Draw(t, "safeHeight"))), nUpd)
+		p = place(t, typ, clienttypes.NewHeight(uint64(rapid.IntRange(0, 3).Draw(t, "safeRev")), 0xff00+uint64(rapid.IntRange(1, 40).Draw(t, "safeHeight"))), nUpd)
 		for i := range p.UpdRevs {
 			p.UpdRevs[i] = p.Rev
 		}
